@@ -59,8 +59,12 @@ def roundtrip_problem(T):
         x, y = vt[0], vr[0]
         if x == y:
             continue
-        if isinstance(x, tuple) and isinstance(y, tuple) and (x[1], x[2]) == (y[2], y[1]):
-            continue
+        if isinstance(x, tuple) and isinstance(y, tuple):
+            # equations (and chains a = b = c): the same sides, in any order and grouping, mean the same solution set
+            from .equiv import sides_of
+
+            if sorted(sides_of(x)) == sorted(sides_of(y)):
+                continue
         if (vt[1] or vr[1]) and not isinstance(x, tuple) and not isinstance(y, tuple) and abs(x - y) <= abs(x) / 10**9:
             continue
         return ("reparse-value", {"printed": s, "reparsed_as": E.text_of(R), "assignment": G.show_assignment(a), "tree_value": str(x), "reparsed_value": str(y)})
@@ -108,8 +112,8 @@ def check_tree_obj(ctx, T, case, origin):
     if X.has_nonfinite(T):
         ctx.count("excluded_nonfinite")
         return True
-    if E.has_huge_constant(T):
-        ctx.count("excluded_huge_constant")
+    if E.has_unprintable_constant(T):
+        ctx.count("excluded_unprintable_constant")
         return True
     ctx.count("roundtrips")
     if A.needs_grouping(T):
@@ -129,7 +133,7 @@ def check_tree_obj(ctx, T, case, origin):
     return False
 
 
-LEAVES = ["x", "2", "-3", "0.5", "4y", "z^2", "3!", "sgn(x)"]
+LEAVES = ["x", "2", "-3", "0.5", "4y", "z^2", "3!", "sgn(x)", "0.00001", "12345678901234567890123.5"]
 CORE = ["x", "2", "-3", "4y", "z^2"]
 OPS = ["+", "-", "*", "/", "^"]
 
@@ -200,7 +204,7 @@ def check_tree(ctx, case):
     ctx.sample({"text": case["text"], "pre": case.get("pre"), "printed": E.text_of(root)})
     if not check_tree_obj(ctx, root, case, "g-tree"):
         return
-    if A.audit(root) is not None:
+    if A.audit(root) is not None or E.has_huge_constant(root):
         return
     for name, rule in E.rules():
         for n in A.inorder(root):
@@ -210,7 +214,7 @@ def check_tree(ctx, case):
             except Exception:
                 continue
             ap = E.apply(rule, n)
-            if ap.error is not None or ap.result_root is None or A.audit(ap.result_root) is not None:
+            if ap.error is not None or ap.result_root is None or A.audit(ap.result_root) is not None or E.has_huge_constant(ap.result_root):
                 ctx.count("skipped:bad-application(C06/C07)")
                 continue
             ctx.count(f"applied:{name}:{ap.arrangement}")
